@@ -1166,6 +1166,8 @@ class RunBundler:
                     )
                 # Since there are no events or event_pages incrementing the sequence counter, we do it ourselves.
                 self._sequence_counters[stream_name] += indices_difference
+                # The frames behind these stream datums are not collected again after a rewind
+                self._no_rewind_streams.add(stream_name)
 
             if return_payload:
                 return payload
@@ -1173,6 +1175,8 @@ class RunBundler:
         else:
             # Since there are no events or event_pages incrementing the sequence counter, we do it ourselves.
             self._sequence_counters[stream_name] += indices_difference
+            # The frames behind these stream datums are not collected again after a rewind
+            self._no_rewind_streams.add(stream_name)
 
     async def backstop_collect(self):
         for obj in list(self._uncollected):
